@@ -36,10 +36,10 @@ type ParetoDistribution struct {
 /* -------------------------------------------------------------------------- */
 
 func NewParetoDistribution(lambda, kappa Scalar) (*ParetoDistribution, error) {
-  if lambda.GetFloat64() <= 0.0 {
+  if !(lambda.GetFloat64() > 0.0) {
     return nil, fmt.Errorf("invalid value for parameter lambda: %f", lambda.GetFloat64())
   }
-  if kappa.GetFloat64() <= 0.0 {
+  if !(kappa.GetFloat64() > 0.0) {
     return nil, fmt.Errorf("invalid value for parameter kappa: %f", kappa.GetFloat64())
   }
 
